@@ -32,7 +32,7 @@ TRANSPARENT = {"ImplicitCastExpr", "MaterializeTemporaryExpr", "ExprWithCleanups
 def clang(args: List[str], cwd=None, timeout=120):
     if CLANG is None:
         raise core.AnalysisError("clang++ not found")
-    return subprocess.run([CLANG, "-std=c++20", "-fsyntax-only", "-Wno-unused", "-ferror-limit=40"] + args,
+    return subprocess.run([CLANG, "-std=c++20", "-fsyntax-only", "-Wno-unused", "-Werror=return-type", "-ferror-limit=40"] + args,
                           capture_output=True, text=True, cwd=cwd, timeout=timeout)
 
 
